@@ -162,6 +162,16 @@ func (r *registryImpl) register(l *Lint) error {
 	return r.registerCertificateLint(l.toCertificateLint())
 }
 
+// nameTaken reports whether a lint of any kind (certificate, revocation list
+// or OCSP response) is already registered under name. Lint names key result
+// sets, filters and the JSON listing, so they must be unique across kinds and
+// not only within one kind's lookup.
+func (r *registryImpl) nameTaken(name string) bool {
+	return r.certificateLints.ByName(name) != nil ||
+		r.revocationListLints.ByName(name) != nil ||
+		r.ocspResponseLints.ByName(name) != nil
+}
+
 // registerCertificateLint registers a CertificateLint to the registry.
 //
 // An error is returned if the lint or lint's Lint pointer is nil, if the Lint
@@ -172,6 +182,9 @@ func (r *registryImpl) registerCertificateLint(l *CertificateLint) error {
 	}
 	if l.Lint() == nil {
 		return errNilLintPtr
+	}
+	if r.nameTaken(l.Name) {
+		return &errDuplicateName{l.Name}
 	}
 	return r.certificateLints.register(l, l.Name, l.Source)
 }
@@ -186,6 +199,9 @@ func (r *registryImpl) registerRevocationListLint(l *RevocationListLint) error {
 	}
 	if l.Lint() == nil {
 		return errNilLintPtr
+	}
+	if r.nameTaken(l.Name) {
+		return &errDuplicateName{l.Name}
 	}
 	return r.revocationListLints.register(l, l.Name, l.Source)
 }
@@ -203,6 +219,9 @@ func (r *registryImpl) registerOcspResponseLint(l *OcspResponseLint) error {
 	}
 	if l.Name == "" {
 		return errEmptyName
+	}
+	if r.nameTaken(l.Name) {
+		return &errDuplicateName{l.Name}
 	}
 	return r.ocspResponseLints.register(l, l.Name, l.Source)
 }
